@@ -461,6 +461,9 @@ func genCase(t *rapid.T) Case {
 				if k, _, _ := s.Classify(); k == model.KMatchAll {
 					cp := append([]model.Seg(nil), p.Segs...)
 					cp[i] = model.Seg{Elems: []model.Elem{{Params: []model.Param{{Name: "other", Value: "**", Blanks: 1}}}}, Optional: s.Optional}
+					if i == len(cp)-1 && i > 0 && rapid.Bool().Draw(t, "clashopt") {
+						cp[i].Optional = !cp[i].Optional
+					}
 					d, m, found = model.Route{Segs: cp}, g.M, true
 				}
 			}
